@@ -839,6 +839,28 @@ def r01_14(ctx, rep):
 
 
 @SPEC.rule(
+    "R01.15",
+    "a modified checkout is always recognisable: every path through _version.render_pep440 on which pieces['dirty'] is not known to be false "
+    "appends '.dirty' to the version — the cache bypass of parse() hangs on that suffix, and a modified tree that sits exactly on a tag would "
+    "otherwise fill and read the cache under the release's key",
+)
+def r01_15(ctx, rep):
+    from ..cfg import CFG, assume_truth
+    R = "R01.15"
+    VER = "src/pymoca/_version.py"
+    fn = ctx.func(VER, "render_pep440", R)
+    cfg = CFG(fn, R)
+    marks = {x.id for x in cfg.stmts() if any(isinstance(c, ast.Constant) and isinstance(c.value, str) and ".dirty" in c.value for c in ast.walk(x.ast))
+             and isinstance(x.ast, (ast.Assign, ast.AugAssign))}
+    if not marks:
+        raise MechanismMissing(R, "render_pep440 never appends '.dirty'")
+    clean = {x.id for x in cfg.nodes if x.kind == "assume" and assume_truth(x, "pieces['dirty']") is False}
+    w = cfg.path(cfg.entry, cfg.exit, avoid=marks | clean)
+    rep.ob(R, VER + ":render_pep440", "a dirty tree is rendered with the .dirty suffix", w is None,
+           "a version can be rendered without '.dirty' on a path that has not established that the tree is clean", path=cfg.describe(w) if w else "")
+
+
+@SPEC.rule(
     "R01.10",
     "each table's verdict is its own: in _check_database_structure the test that decides whether table T is (re)created reads "
     "only variables whose reaching definitions all lie after T's own existence query (SELECT ... FROM sqlite_master ... name='T') — "
